@@ -359,6 +359,12 @@ def run(ctx, R, R2):
                 one = guard_val(p, lambda e: e[0] == 'bin' and e[1] == 'Eq' and e[3] == ('const', 1))
                 d = [x for x in p.decisions if x[2][0] == 'bin' and x[2][1] == 'Eq' and x[2][3] == ('const', 1)]
                 idx = byte_index(d[-1][2][2]) if d else None
+                if not d:
+                    # `match data[at] { 1 => 256, n => n as usize }`: the same test as a switch on the byte itself
+                    sw = [x for x in p.decisions if byte_index(x[2]) is not None and x[3] in (1, ('not', (1,)))]
+                    if sw:
+                        idx = byte_index(sw[-1][2])
+                        one = 1 if sw[-1][3] == 1 else 0
                 seen['count-at'] = rlin(idx) if idx else None
                 if one == 1:
                     seen['one->256'] = rv == ('const', 256)
